@@ -4,6 +4,8 @@
 mod core;
 mod ops;
 #[cfg(feature = "full")]
+mod files;
+#[cfg(feature = "full")]
 mod record;
 
 use std::fs::{File, OpenOptions};
@@ -71,6 +73,8 @@ fn main() {
     }
     match args[1].as_str() {
         "replay" => replay(&args[2..]),
+        #[cfg(feature = "full")]
+        "files" => files::run(&args[2..]),
         #[cfg(feature = "full")]
         "record" => {
             let kind = args[2].as_str();
